@@ -237,6 +237,17 @@ def gen_cheb(ctx, rng, idx, quick):
         evals = [("M", wp, pts[-2][0], pts[-2][1]) for wp in (256, 1024)] + evals
     return {"kind": "C", "cls": cls, "n": n, "coeffs": cs, "evals": evals}
 
+def gen_cheb_witness(ctx, rng, idx):
+    """replay of the witness family of C14_chebyshev_estimate_refuted on the real code: coefficients (0, 0, K).
+    The coded estimate never reads c_2 = K, the error is K times the rounding error of T_2(x) = 2x^2 - 1 (x has
+    53 significant bits, so x*x is rounded at 64 and at 128 bits)"""
+    K = [Fr(2 ** 20), Fr(10 ** 6 + 1), Fr(2 ** 40 + 1), Fr(12345678)][idx % 4]
+    pts = [(Fr(1 / 3.0), Fr(0)), (Fr(0.7071067811865476), Fr(0)), (dy(rng, 53, -1), dy(rng, 53, -2))]
+    evals = []
+    for (xr, xi) in pts:
+        evals += [("M", 64, xr, xi), ("M", 128, xr, xi)]
+    return {"kind": "C", "cls": "witness", "n": 2, "coeffs": [(Fr(0), Fr(0)), (Fr(0), Fr(0)), (K, Fr(0))], "evals": evals}
+
 def ulp_step(x, k):
     """the double k units in the last place away from the double x"""
     u = struct.unpack("<q", struct.pack("<d", x))[0]
@@ -433,6 +444,49 @@ class Judge:
         self.max_est_ratio = {}      # worst observed |err| / estimate per kind (MP)
         self.pole_ok = 0; self.noimpl = 0; self.flags_bad = 0; self.skipped = 0
         self.est_judged = {}; self.est_below = {}; self.est_zero = {}
+        self.tie = {}                # estimate tie: which modelled formula the exported estimate equals
+        self.tie_worst = {}          # worst |exported - modelled| / tolerance per (kind/arith)
+        self.tie_bad = {}            # first mismatching record per (kind/arith)
+        self.witness = {"replayed": 0, "error_above_estimate": 0}
+
+    def tie_estimate(self, kind, arith, n, wp, est, model, rep, cond):
+        """every exported secular / Chebyshev estimate must equal the estimate of the Coq model (sec_poly_est_fl,
+        cheb_est_fl resp. the repaired cheb_fix_est) up to the roundings the model's theorems allow: the twin gives the
+        unrounded formula (sec_est_q / cheb_est_q), the window is relative (8n+10) 2^-48 plus, for Chebyshev, the
+        propagated rounding of the computed T_k relative to their majorants"""
+        key = "%s/%s" % (kind, arith)
+        rel = Fr(8 * n + 10, 2 ** 48)
+        cands = []
+        if kind == "S":
+            E = parse_qhex(model[6])
+            if arith == "M":
+                cands.append(("coded:4*2^(1-wp)", E * Fr(8, 2 ** wp), rel * E * Fr(8, 2 ** wp)))
+                cands.append(("coded:4*2^1(p->prec==0)", E * 8, rel * E * 8))
+            else:
+                cands.append(("coded:4*DBL_EPSILON", E * Fr(1, 2 ** 50), rel * E * Fr(1, 2 ** 50)))
+        else:
+            E = parse_qhex(model[5]); M = parse_qhex(model[6]); u = Fr(1, 2 ** wp)
+            dev = Fr(10, 9) * (4 * n + 4) * MU_MP * u * M
+            cands.append(("coded:2*2^-wp", 2 * u * E, 2 * u * (rel * E + dev)))
+            cands.append(("repaired:4n*2^-wp", 4 * n * u * cond, 4 * n * u * cond * (rel + Fr(1, 2 ** 40))))
+        best = None
+        for name, val, tol in cands:
+            d = abs(est - val)
+            if tol > 0:
+                q = d / tol
+                r = float(q) if q < 10 ** 30 else 1e30
+            else: r = 0.0 if d == 0 else 1e30
+            if best is None or r < best[1]: best = (name, r)
+        if best[1] <= 1.0:
+            k2 = key + ":" + best[0]
+            self.tie[k2] = self.tie.get(k2, 0) + 1
+            if best[1] > self.tie_worst.get(key, -1.0): self.tie_worst[key] = best[1]
+        else:
+            self.tie[key + ":MISMATCH"] = self.tie.get(key + ":MISMATCH", 0) + 1
+            if key not in self.tie_bad:
+                r2 = dict(rep); r2["exported_estimate"] = str(float(est)) if est < 10 ** 300 else "huge"
+                r2["modelled"] = {nm: str(float(v)) if v < 10 ** 300 else "huge" for nm, v, _ in cands}; r2["distance_over_tolerance"] = best[1]
+                self.tie_bad[key] = r2
 
     def h(self, key):
         self.hist[key] = self.hist.get(key, 0) + 1
@@ -483,6 +537,12 @@ class Judge:
         self.h("deg<=%d" % (5 if n <= 5 else 20 if n <= 20 else 60))
         if arith == "M": self.h("prec:%d" % wp)
         self.ratio(self.max_ratio, "%s/%s" % (kind, arith), e2, B)
+        if est is not None and len(model) > 6 and tag in ("feval", "deval", "meval"):
+            if kind == "S" or (kind == "C" and arith == "M" and n >= 1):
+                self.tie_estimate(kind, arith, n, wp, est, model, rep, cond)
+        if case["cls"] == "witness" and est is not None:
+            self.witness["replayed"] += 1
+            if e2 > est * est: self.witness["error_above_estimate"] += 1
         if len(self.samples) < 6 and e2 != 0 and self.evals % 97 == 1:
             self.samples.append({"kind": kind, "cls": case["cls"], "n": n, "eval": rep["eline"][:80],
                                  "err_over_bound": math.sqrt(float(e2 / (B * B))) if B else None})
@@ -668,6 +728,7 @@ def run(ctx):
     cases = fixed_monos() + [gen_mono(ctx, rng, i, quick) for i in range(nm)]
     cases += [gen_mono_sparsehigh(ctx, rng, i) for i in range(ctx.pick(4, 40))]
     cases += [gen_cheb(ctx, rng, i, quick) for i in range(nc)]
+    cases += [gen_cheb_witness(ctx, rng, i) for i in range(ctx.pick(2, 8))]
     cases += [gen_sec(ctx, rng, i, quick) for i in range(ns)]
     ctx.log("generated %d inputs, %d evaluations" % (len(cases), sum(len(c["evals"]) for c in cases)))
 
@@ -681,7 +742,13 @@ def run(ctx):
         ctx.proof_violation_if_broken(search=search)
     else:
         run_cases(ctx, harness, cases, judge)
+    for key, r2 in sorted(judge.tie_bad.items()):
+        ctx.violation("correspondence:estimate-model:%s" % key,
+                      "the exported error estimate of the %s evaluator (%s) equals none of the modelled estimate formulas (%d records); the estimate theorems no longer describe the code"
+                      % ({"S": "secular product-form", "C": "Chebyshev"}[key[0]], key, judge.tie.get(key + ":MISMATCH", 0)), r2, no_input=True)
     probe = defect_probe(ctx, harness, rng)
+    ctx.log("estimate tie: %s ; worst distance/tolerance %s" % (json.dumps(dict(sorted(judge.tie.items()))), json.dumps({k: round(v, 4) for k, v in judge.tie_worst.items()})))
+    ctx.log("Chebyshev refutation witness (0,0,K) replayed: %s" % json.dumps(judge.witness))
     ctx.log("evaluations judged: %d (non-zero error %d), poles %d, noimpl %d" % (judge.evals, judge.nontrivial, judge.pole_ok, judge.noimpl))
     ctx.log("worst |err|/bound: %s" % json.dumps({k: round(v, 4) for k, v in judge.max_ratio.items()}))
     ctx.log("worst |err|/estimate: %s" % json.dumps({k: (round(v, 6) if v < 1e300 else "inf") for k, v in judge.max_est_ratio.items()}))
@@ -702,6 +769,9 @@ def run(ctx):
         "double_dpe_estimate_below_error": dict(sorted(judge.est_below.items())),
         "double_dpe_estimate_zero_with_nonzero_error": dict(sorted(judge.est_zero.items())),
         "defect_probe_exit_codes": probe,
+        "estimate_tie": dict(sorted(judge.tie.items())),
+        "estimate_tie_worst_distance_over_tolerance": {k: round(v, 6) for k, v in judge.tie_worst.items()},
+        "chebyshev_refutation_witness": judge.witness,
         "constants": {"mu_over_u_double_dpe": MU_FP, "mu_over_u_mp": MU_MP,
                       "monomial": "(20/9 mu/u n + 2) u p~(|x|)", "chebyshev": "(10/9)(3n+2) mu sum|c_k|T~_k(|x|)",
                       "secular": "(10/9)(3n+4) mu (sum|a_i|/|x-b_i| + 1) prod|x-b_i|"},
